@@ -119,7 +119,7 @@ class Call(Contract):
             P = ex.ghost["P"]
             h = ex.ctx.func("out_h", Idx, R)
             env["out"] = Arr(P.shape, lambda i: h(i), "real", ex.ctx.const("dt_out", DT), Region("fresh"))
-        mods = ("out", "term", "tmp", "exponent", "coefficient", "power", "name")
+        mods = ("out", "term", "tmp", "exponent", "coefficient", "power", "name", "value")
         def ghost(ex, env, k):
             from engine.logic import unfold_at
             return [unfold_at(k + 1)]
@@ -142,7 +142,7 @@ class Call(Contract):
             o.owndata = z3.BoolVal(True)
             ex.ctx.assume(o.wf(ex.ctx))
             env["out"] = o
-        mods = ("out", "term", "tmp", "exponent", "coefficient", "power", "name")
+        mods = ("out", "term", "tmp", "exponent", "coefficient", "power", "name", "value")
 
         def ghost(ex, env, k):
             from engine.logic import unfold_at
@@ -240,7 +240,7 @@ class Call(Contract):
         def havoc(ex, env, k):
             h = ex.ctx.func("out_h", Idx, R)
             env["out"] = Arr(ex.ghost["ST"], lambda p: h(p), "real", ex.ctx.const("dt_out", DT), Region("fresh"))
-        mods = ("out", "term", "tmp", "exponent", "coefficient", "power", "name")
+        mods = ("out", "term", "tmp", "exponent", "coefficient", "power", "name", "value")
 
         def ghost(ex, env, k):
             from engine.logic import unfold_at
